@@ -138,7 +138,7 @@ class Unfolded:
         return i
 
 
-def unfold(root, mode, uf=None):
+def unfold(root, mode, uf=None, xdev=False):
     """The tree below the starting point [root] (bytes path as given to find) as the walker sees
     it in follow mode 'P' | 'H' | 'L'.  Returns (tree string for the model, Unfolded)."""
     uf = uf or Unfolded()
@@ -185,6 +185,12 @@ def unfold(root, mode, uf=None):
             info["kind"] = "file"
             info["st"] = lst
             return "L"
+        # -xdev: a directory on another file system than the starting point is an entry like any other, but is not entered
+        if xdev and depth > 0 and root_dev[0] is not None and st.st_dev != root_dev[0]:
+            info["kind"] = "other-device"
+            return "D[]"
+        if depth == 0:
+            root_dev[0] = st.st_dev
         # a directory that is descended
         try:
             names = sorted(os.listdir(path))
@@ -199,6 +205,7 @@ def unfold(root, mode, uf=None):
         return "D[" + ",".join(parts) + "]"
 
     uf.nodes[0] = {"name": os.path.basename(root.rstrip(b"/")) or root}
+    root_dev = [None]
     t = node(root, 0, frozenset(), 0)
     return t, uf
 
